@@ -57,6 +57,7 @@ import (
 	memorymetadata "github.com/containerd/stargz-snapshotter/metadata/memory"
 	"github.com/containerd/stargz-snapshotter/snapshot"
 	"github.com/containerd/stargz-snapshotter/task"
+	"github.com/containerd/stargz-snapshotter/util/verifhook"
 	metrics "github.com/docker/go-metrics"
 	fusefs "github.com/hanwen/go-fuse/v2/fs"
 	"github.com/hanwen/go-fuse/v2/fuse"
@@ -295,6 +296,7 @@ func (fs *filesystem) Mount(ctx context.Context, mountpoint string, labels map[s
 		}
 	}()
 
+	verifhook.Gate("fs.mount.resolved", fs, mountpoint, l)
 	// Verify layer's content
 	if fs.disableVerification {
 		// Skip if verification is disabled completely
@@ -322,6 +324,7 @@ func (fs *filesystem) Mount(ctx context.Context, mountpoint string, labels map[s
 		// Verification must be done. Don't mount this layer.
 		return fmt.Errorf("digest of TOC JSON must be passed")
 	}
+	verifhook.Gate("fs.mount.verified", fs, mountpoint, l)
 	node, err := l.RootNode(0)
 	if err != nil {
 		log.G(ctx).WithError(err).Warnf("Failed to get root node")
@@ -335,11 +338,13 @@ func (fs *filesystem) Mount(ctx context.Context, mountpoint string, labels map[s
 	// Register the mountpoint layer
 	fs.layerMu.Lock()
 	fs.layer[mountpoint] = l
+	verifhook.Event("fs.map.insert", fs, mountpoint, l)
 	fs.layerMu.Unlock()
 	fs.metricsController.Add(mountpoint, l)
 
 	// mount the node to the specified mountpoint
 	// TODO: bind mount the state directory as a read-only fs on snapshotter's side
+	verifhook.Gate("fs.mount.fuse", fs, mountpoint, l)
 	rawFS := fusefs.NewNodeFS(node, &fusefs.Options{
 		AttrTimeout:     &fs.attrTimeout,
 		EntryTimeout:    &fs.entryTimeout,
@@ -374,6 +379,7 @@ func (fs *filesystem) Check(ctx context.Context, mountpoint string, labels map[s
 
 	fs.layerMu.Lock()
 	l := fs.layer[mountpoint]
+	verifhook.Event("fs.map.lookup", fs, mountpoint, l)
 	fs.layerMu.Unlock()
 	if l == nil {
 		log.G(ctx).Debug("layer not registered")
@@ -445,7 +451,9 @@ func (fs *filesystem) Unmount(ctx context.Context, mountpoint string) error {
 	if err := l.Close(); err != nil { // Cleanup associated resources
 		log.G(ctx).WithError(err).Warn("failed to release resources of the layer")
 	}
+	verifhook.Event("fs.map.delete", fs, mountpoint, l)
 	fs.layerMu.Unlock()
+	verifhook.Gate("fs.unmount.deleted", fs, mountpoint)
 	fs.metricsController.Remove(mountpoint)
 
 	if err := unmount(mountpoint, 0); err != nil {
